@@ -82,6 +82,14 @@ def build(case):
     occ = np.zeros((nfr, ns, nf), bool)
     if kind == "random":
         occ = rng.random_sample((nfr, ns, nf)) < case["fill"]
+    elif kind == "manyblobs":
+        # a frame with more separate spots than the labelling kernel's equivalence table holds at first (16384): every
+        # second pixel of every second row, some of them two pixels wide; the frames after it hold a few of them
+        occ[0, 0::2, 0::2] = True
+        wide = rng.random_sample((ns, nf)) < 0.02
+        occ[0, 0::2, 1::4] |= wide[0::2, 1::4]
+        for k in range(1, nfr):
+            occ[k] = occ[0] & (rng.random_sample((ns, nf)) < 0.001)
     elif kind == "deepcomb":
         # a blob whose provisional labels are united in a long chain on one frame; a few isolated pixels elsewhere
         for k in range(nfr):
@@ -375,6 +383,11 @@ def check(case, rec=None):
 def run_shard(rec):
     quick = rec.tier == "quick"
     hyp_run(rec, "frames", cases(16, 20), lambda c: check(c, rec), max_examples=150 if quick else 1500)
+    many = st.builds(lambda seed, nfr, ns, nf: dict(kind="manyblobs", nfr=nfr, ns=ns, nf=nf, fill=0.25, seed=seed,
+                                                    thpos="low", om0=0.0, step=0.25, empty=False, imtype="f32"),
+                     st.integers(0, 2 ** 31 - 1), st.integers(1, 3), st.sampled_from([258, 300, 364]),
+                     st.sampled_from([256, 280, 366]))
+    hyp_run(rec, "frames_manyblobs", many, lambda c: check(c, rec), max_examples=1 if quick else 6, shrink=False)
     hyp_run(rec, "frames_large", cases(40, 48), lambda c: check(c, rec), max_examples=15 if quick else 200)
 
 
